@@ -152,12 +152,20 @@ def check_base(ctx, case) -> None:
                                  "rules": [gen.rule_text(r) for b in spec["blocks"] for r in b["rules"]][:4]})
         # (<-) every needed removed component is reported
         nd = needed(spec, {i for (k, i, key) in subset if k == "out" and key == "defuzzifier"})
+        def label(c):
+            if c[0] == "out":
+                return f"'{spec['outputs'][c[1]]['name']}'"
+            nm = spec["blocks"][c[1]]["name"]
+            return f"'{nm}'" if nm else f"[{c[1]}]"  # an unnamed block is referred to by its index
+
         for c in sub:
             if c in nd:
-                name = spec["blocks"][c[1]]["name"] if c[0] == "block" else spec["outputs"][c[1]]["name"]
-                named = any(c[2] in er and f"'{name}'" in er for er in errors)
-                if not named:
-                    ctx.fail(f"needed-{c[2]}-not-reported", sc, {"missing": list(c), "errors": errors, "ready": ready})
+                # one error per needy component: blocks that share a name each need their own message
+                same = [x for x in sub if x in nd and x[0] == c[0] and x[2] == c[2] and label(x) == label(c)]
+                named = sum(1 for er in errors if c[2] in er and label(c) in er)
+                if named < len(same):
+                    ctx.fail(f"needed-{c[2]}-not-reported", sc, {"missing": list(c), "errors": errors, "ready": ready,
+                                                                 "label": label(c), "needed_by_blocks": len(same)})
                 ctx.cls("needed_and_reported:" + c[2])
         # (->) ready implies processable
         if ready:
@@ -172,7 +180,7 @@ def check_base(ctx, case) -> None:
 
 @st.composite
 def cases(draw):
-    two = draw(st.integers(0, 5)) == 0
+    two = draw(st.integers(0, 3)) == 0
     act = st.sampled_from([{"cls": "General"}] * 6 + [{"cls": "First", "rules": 2, "threshold": 0.0},
                                                       {"cls": "Highest", "rules": 1}, {"cls": "Proportional"},
                                                       {"cls": "Threshold", "comparator": ">", "threshold": 0.25},
@@ -180,6 +188,10 @@ def cases(draw):
                                                                                       "threshold": 0.5}])
     spec = draw(gen.engine(n_blocks=(2, 2) if two else (1, 1), n_out=(1, 2), n_rules=(1, 4), activation=act,
                            rg=draw(st.sampled_from(["dec", "dy"])), depth=2))
+    names = draw(st.sampled_from([None, None, ("rules", "rules"), ("", ""), ("a", ""), ("", "b")]))
+    if names:
+        for b, nm in zip(spec["blocks"], names):
+            b["name"] = nm
     for b in spec["blocks"]:
         for r in b["rules"]:
             r["tight"] = False
